@@ -141,14 +141,30 @@ theorem groupStage_groups (options : Fields) (docs out : List Val)
             refine ⟨groupRuns sorted, h, ?_⟩
             rw [groupRuns_flatten, ← (keyed_ok idExpr docs kds hk).1]
             exact (pySorted_perm _ _ _ _ hs).map _
-    · exact ⟨[(.null, docs)], h, by simp⟩
+    · refine ⟨if docs.isEmpty then [] else [(.null, docs)], h, ?_⟩
+      cases docs <;> simp
+
+/-- no input, no group — whatever the `_id` expression (a constant included) -/
+theorem groupStage_empty (options : Fields) (idExpr : Val)
+    (hid : dget "_id" options = some idExpr) : groupStage (.doc options) [] = .ok [] := by
+  have hs : pySorted keyedLt false ([] : List (Val × Val)) = .ok [] := by
+    simp [pySorted, pairsOk, isort]
+  cases hn : Expr.isNull idExpr <;>
+    simp [groupStage, hid, hn, keyed, hs, groupRuns, emitGroups]
+
+/-- `_id: null`: one group holding every document, in input order — none over no input -/
+theorem groupStage_null_id (options : Fields) (docs : List Val)
+    (hid : dget "_id" options = some .null) :
+    groupStage (.doc options) docs =
+      emitGroups options (if docs.isEmpty then [] else [(.null, docs)]) := by
+  simp [groupStage, hid, Expr.isNull]
 
 /-- **`$group` partitions its input by key** (scalar keys): the groups have pairwise different
     keys, the group of key `k` holds exactly the documents whose key is `==` to `k`, in input
     order, and every document's key has its group. -/
 theorem groupStage_partition (options : Fields) (idExpr : Val) (docs out : List Val)
     (kds : List (Val × Val))
-    (hid : dget "_id" options = some idExpr) (ht : idExpr.truthy = true)
+    (hid : dget "_id" options = some idExpr) (ht : Expr.isNull idExpr = false)
     (hk : keyed idExpr docs = .ok kds) (hK : ∀ p ∈ kds, groupKeyOk p.1 = true)
     (h : groupStage (.doc options) docs = .ok out) :
     ∃ rs : List (Val × List Val), emitGroups options rs = .ok out ∧
@@ -158,8 +174,8 @@ theorem groupStage_partition (options : Fields) (idExpr : Val) (docs out : List 
       (∀ p ∈ kds, ∃ r ∈ rs, pyEq r.1 p.1 = true) := by
   have hshallow : kds.all (fun kd => keyShallow kd.1) = true := by
     simp only [List.all_eq_true]; intro p hp; exact keyShallow_of_ok _ (hK p hp)
-  simp only [groupStage, hid, ht, if_true, hk, hshallow, Bool.not_true, Bool.false_eq_true,
-    if_false, group_sort_eq kds hK] at h
+  simp only [groupStage, hid, ht, Bool.not_false, if_true, hk, hshallow, Bool.not_true,
+    Bool.false_eq_true, if_false, group_sort_eq kds hK] at h
   set ltp := fun a b : Val × Val => valLt a.1 b.1 with hltp
   have hperm : (isort ltp kds).Perm kds := isort_perm _ _
   have hKs : ∀ p ∈ isort ltp kds, groupKeyOk p.1 = true := fun p hp => hK p (hperm.mem_iff.1 hp)
